@@ -335,3 +335,53 @@ func (s *zzSentC17) arrived(tb []*actor.ZZRecProc) bool {
 	}
 	return false
 }
+
+// ZZ_C17_Order: sends ordered by happens-before towards one target arrive in that order, whatever the
+// interleaving of the sender with the node's own actors at message boundaries. One goroutine on A sends M numbered
+// messages to t/0 on B; the stream router and the stream writer of A run on their own goroutines; with ZZMARKONLY=1
+// the running goroutine can be preempted exactly at message boundaries (the start of every actor message
+// handling, and between two sends of the sender), up to the preemption bound. WARM: the connection may already be
+// established by an earlier message (sent and delivered before the burst) or is set up by the burst itself.
+func ZZ_C17_Order() {
+	M := zzrt.Param("M")
+	A := &zzNodeC17{name: "node:A", ze: actor.ZZNewEngine("node:A")}
+	B := &zzNodeC17{name: "node:B", ze: actor.ZZNewEngine("node:B")}
+	A.r, B.r = New(A.name, NewConfig()), New(B.name, NewConfig())
+	A.ze.SetRemote(A.r)
+	B.ze.SetRemote(B.r)
+	tb := B.ze.Register("t/0")
+	zzrt.Assert(A.r.Start(A.ze.E) == nil && B.r.Start(B.ze.E) == nil, "C17:Start-fails")
+	zzrt.Quiesce()
+	to := actor.NewPID(B.name, tb.Pid.ID)
+	first := 0
+	if zzrt.Param("WARM") == 1 && zzrt.Choose(2) == 1 {
+		A.ze.E.SendWithSender(to, &TestMessage{Data: []byte{0}}, nil)
+		zzrt.Quiesce()
+		first = 1
+		zzrt.Reach("connection-established-before-the-burst")
+	}
+	zzrt.Go(func() {
+		for i := first; i < M; i++ {
+			zzrt.Mark()
+			A.ze.E.SendWithSender(to, &TestMessage{Data: []byte{byte(i)}}, nil)
+		}
+	})
+	zzrt.Quiesce()
+	panicked := zzPump(B.name)
+	zzrt.Quiesce()
+	zzrt.Assert(!panicked, "C17:stream-reader-panics")
+	next := 0
+	for _, g := range tb.Got {
+		m, ok := g.Msg.(*TestMessage)
+		zzrt.Assert(ok && len(m.Data) == 1, "C17:delivered-something-else")
+		if !ok || len(m.Data) != 1 {
+			continue
+		}
+		if int(m.Data[0]) != next {
+			zzrt.Fail("C17:remote-message-duplicated-lost-or-reordered")
+		}
+		next++
+	}
+	zzrt.Assert(next == M, "C17:message-lost-while-connection-up")
+	zzrt.Reach("burst-delivered-in-order")
+}
